@@ -18,7 +18,7 @@ Guard(e) ==
                         /\ e.writtenadmit = (IF w THEN 1 ELSE 0) /\ e.writtenreject = 0
     [] e.a = "Text" -> /\ e.str = LevelText(e.lvl) /\ e.mt = LevelText(e.lvl)
                        /\ ~e.perr /\ e.parsed = e.lvl /\ e.um = e.lvl
-    [] e.a = "Nil" -> e.calls = 0 /\ e.panic = "" /\ e.neutral
+    [] e.a = "Nil" -> e.calls = 0 /\ e.panic = "" /\ e.neutral /\ e.after    \* after: the next event built from fresh Arr() / Dict() is what it always was
     [] e.a = "Fatal" -> e.exit = 1 /\ e.nwrites = (IF e.filtered THEN 0 ELSE 1) /\ e.closed
     [] e.a = "Reset" -> TRUE
     [] OTHER -> FALSE
